@@ -159,8 +159,9 @@ Proof. vm_compute. reflexivity. Qed.
 
 (* ---- tie to the source: the Go functions of encode/buffer.go and decode/buffer.go, translated from
    /repo's working tree by harness/gosrc.go on every run (gen/GoSrc.v), compute the model's functions,
-   for every input.  (encodeCoordinate is translated too; its equivalence with the model is not proved —
-   it needs the exactness of the float32 product f*64 — and stays tied by the correspondence run.) ---- *)
+   for every input.  (code_encodeCoordinate rests on proofs/Mul64.v: the float32 product f*64 is exact or overflows, from
+   the soft-float's rounding specification.  Encoder.quantize is translated too; its equivalence with the model is not
+   proved and stays tied by the correspondence run.) ---- *)
 From IVG Require Import GoSem GoSrc GenEqNum.
 
 Theorem code_encodeNatural : forall b u, 0 <= u < 4294967296 ->
@@ -182,6 +183,11 @@ Theorem code_encodeReal : forall b f, wf_f32 f ->
   go_encode_buffer_encodeReal b f = (b ++ enc_real f, Z.of_nat (length (enc_real f))).
 Proof. exact GenEqNum.go_encodeReal_eq. Qed.
 Print Assumptions code_encodeReal.
+
+Theorem code_encodeCoordinate : forall b f, wf_f32 f ->
+  go_encode_buffer_encodeCoordinate b f = (b ++ enc_coordinate f, Z.of_nat (length (enc_coordinate f))).
+Proof. exact GenEqNum.go_encodeCoordinate_eq. Qed.
+Print Assumptions code_encodeCoordinate.
 
 Theorem code_encodeZeroToOne : forall b f, wf_f32 f ->
   go_encode_buffer_encodeZeroToOne b f = (b ++ enc_zero_to_one f, Z.of_nat (length (enc_zero_to_one f))).
